@@ -1,0 +1,117 @@
+//go:build verif
+
+// Contracts for package alloctxn, checked by /verif/govc (comment-only file).
+package alloctxn
+
+//@ specfunc atxnInv(a *AllocTxn) = a != nil && superInv(a.Super) && acceptedSize(dsksize) && a.Op != nil && a.Balloc != nil && a.Ialloc != nil && base(a.Balloc) == theBalloc && base(a.Ialloc) == theIalloc && theBalloc != theIalloc
+//@ specfunc validBlk(b uint64) = b >= 1539 + dsksize/32768 && b < dsksize
+//@ specfunc validInum(i uint64) = i >= 2 && i < 32768
+//@ specfunc allocBValid(a *AllocTxn) = forall i uint64 :: i < len(a.allocBnums) ==> validBlk(a.allocBnums[i])
+//@ specfunc freeBValid(a *AllocTxn) = forall i uint64 :: i < len(a.freeBnums) ==> validBlk(a.freeBnums[i])
+//@ specfunc allocIValid(a *AllocTxn) = forall i uint64 :: i < len(a.allocInums) ==> validInum(a.allocInums[i])
+//@ specfunc freeIValid(a *AllocTxn) = forall i uint64 :: i < len(a.freeInums) ==> validInum(a.freeInums[i])
+//@ specfunc listsDisjoint(a *AllocTxn) = base(a.allocBnums) != base(a.freeBnums) && base(a.allocBnums) != base(a.allocInums) && base(a.allocBnums) != base(a.freeInums) && base(a.freeBnums) != base(a.allocInums) && base(a.freeBnums) != base(a.freeInums) && base(a.allocInums) != base(a.freeInums)
+//@ specfunc listsValid(a *AllocTxn) = listsDisjoint(a) && allocBValid(a) && freeBValid(a) && allocIValid(a) && freeIValid(a)
+// Allocator invariant (C15-G4 / C04): every non-data block and the two reserved inodes stay marked.
+//@ specfunc allocInv() = (forall b uint64 :: b < 32768*(dsksize/32768+1) && !validBlk(b) ==> abits[theBalloc][b]) && abits[theIalloc][0] && abits[theIalloc][1] && asize[theBalloc] == 32768*(dsksize/32768+1) && asize[theIalloc] == 32768
+
+//@ spec (*AllocTxn).AssertValidBlock
+//@   props C11 C15
+//@   requires atxnInv(atxn)
+//@   requires [I1-valid] blkno == 0 || validBlk(blkno) @C04 @C15 @C11
+
+//@ spec (*AllocTxn).AllocBlock
+//@   props C04 C05 C11 C15
+//@   requires atxnInv(atxn) && listsValid(atxn) && lastst == 0
+//@   preserves [allocInv] allocInv() @C15 @C04
+//@   modifies abits, atxn.allocBnums, atxn.allocBnums[*]
+//@   ensures [G4-range] result == 0 || validBlk(result) @C15 @C04
+//@   ensures [G4-wasfree] result != 0 ==> !old(abits)[theBalloc][result] && abits[theBalloc][result] @C15 @C05
+//@   ensures [lists-disjoint] listsDisjoint(atxn)
+//@   ensures [lists-allocB] allocBValid(atxn)
+//@   ensures [lists-freeB] freeBValid(atxn)
+//@   ensures [lists-allocI] allocIValid(atxn)
+//@   ensures [lists-freeI] freeIValid(atxn)
+//@   ensures [F5-recorded] result != 0 ==> len(atxn.allocBnums) == old(len(atxn.allocBnums)) + 1 && atxn.allocBnums[old(len(atxn.allocBnums))] == result @C05 @C09
+//@   ensures result == 0 ==> len(atxn.allocBnums) == old(len(atxn.allocBnums)) && abits == old(abits)
+
+//@ spec Begin
+//@   props C05 C09 C11
+//@   requires superInv(super) && acceptedSize(dsksize) && log != nil && balloc != nil && ialloc != nil && base(balloc) == theBalloc && base(ialloc) == theIalloc && theBalloc != theIalloc
+//@   allocates alloctxn.AllocTxn, jrnl.Op, []uint64
+//@   ensures fresh(result) && atxnInv(result) && listsValid(result)
+//@   ensures [F5-empty] len(result.allocInums) == 0 && len(result.freeInums) == 0 && len(result.allocBnums) == 0 && len(result.freeBnums) == 0 @C05 @C09
+//@   ensures result.Super == super && result.Balloc == balloc && result.Ialloc == ialloc
+
+//@ spec (*AllocTxn).AllocINum
+//@   props C04 C05 C11 C15
+//@   requires atxnInv(atxn) && listsValid(atxn) && lastst == 0
+//@   preserves [allocInv] allocInv() @C15 @C04
+//@   modifies abits, freshinum, atxn.allocInums, atxn.allocInums[*]
+//@   ghostexit freshinum = ite(result != 0, store(freshinum, result, true), freshinum)
+//@   ensures [G4-inumrange] result == 0 || validInum(result) @C15 @C04 @C11
+//@   ensures [G4-inumwasfree] result != 0 ==> !old(abits)[theIalloc][result] && abits[theIalloc][result] @C15 @C05
+//@   ensures result != 0 ==> freshinum[result]
+//@   ensures listsValid(atxn)
+//@   ensures [F5-recorded] result != 0 ==> len(atxn.allocInums) == old(len(atxn.allocInums)) + 1 && atxn.allocInums[old(len(atxn.allocInums))] == result @C05 @C09
+//@   ensures result == 0 ==> len(atxn.allocInums) == old(len(atxn.allocInums)) && abits == old(abits)
+
+//@ spec (*AllocTxn).FreeINum
+//@   props C05 C11
+//@   requires atxnInv(atxn) && listsValid(atxn) && lastst == 0
+//@   requires [valid] validInum(inum) @C04 @C11
+//@   modifies atxn.freeInums, atxn.freeInums[*]
+//@   ensures listsValid(atxn)
+//@   ensures [F5-recorded] len(atxn.freeInums) == old(len(atxn.freeInums)) + 1 && atxn.freeInums[old(len(atxn.freeInums))] == inum @C05
+
+// R3: every number in nums gets its bit written into the transaction, at an
+// address inside the bitmap region starting at blk (R8 schema: 1-bit objects).
+//@ spec (*AllocTxn).WriteBits
+//@   props C01 C11
+//@   requires atxnInv(atxn) && lastst == 0
+//@   requires [R8-bitmaprange] forall i uint64 :: i < len(nums) ==> blk + nums[i]/32768 < dsksize @C01 @C11
+
+//@ spec (*AllocTxn).PreCommit
+//@   props C01 C11
+//@   requires atxnInv(atxn) && listsValid(atxn) && lastst == 0
+
+//@ spec (*AllocTxn).PostCommit
+//@   props C05 C11 C10
+//@   requires atxnInv(atxn) && listsValid(atxn)
+//@   preserves [allocInv] allocInv() @C15 @C04
+//@   modifies abits
+//@   loop 0 invariant allocInv()
+//@   loop 1 invariant allocInv()
+
+//@ spec (*AllocTxn).PostAbort
+//@   props C05 C09 C11
+//@   requires atxnInv(atxn) && listsValid(atxn)
+//@   preserves [allocInv] allocInv() @C15 @C04
+//@   modifies abits
+//@   loop 0 invariant allocInv()
+//@   loop 1 invariant allocInv()
+
+//@ spec (*AllocTxn).ReadBlock
+//@   props C01 C11
+//@   requires atxnInv(atxn) && lastst == 0
+//@   requires [I1-valid] validBlk(blkno) @C04 @C11 @C01
+//@   allocates buf.Buf
+//@   ensures result != nil && len(result.Data) == 4096 && result.Sz == 32768
+
+//@ spec (*AllocTxn).ZeroBlock
+//@   props C12 C11
+//@   requires atxnInv(atxn) && lastst == 0
+//@   requires [I1-valid] validBlk(blkno) @C04 @C11
+//@   allocates buf.Buf
+//@   modifies buf.Buf.dirty, []uint8
+//@   loop 0 invariant len(buf.Data) == 4096
+
+//@ spec (*AllocTxn).FreeBlock
+//@   props C12 C05 C11
+//@   requires atxnInv(atxn) && listsValid(atxn) && lastst == 0
+//@   requires [I1-valid] blkno == 0 || validBlk(blkno) @C04 @C11
+//@   allocates buf.Buf
+//@   modifies buf.Buf.dirty, []uint8, atxn.freeBnums, atxn.freeBnums[*]
+//@   ensures listsValid(atxn)
+//@   ensures [F5-recorded] blkno != 0 ==> len(atxn.freeBnums) == old(len(atxn.freeBnums)) + 1 && atxn.freeBnums[old(len(atxn.freeBnums))] == blkno @C05
+//@   ensures blkno == 0 ==> len(atxn.freeBnums) == old(len(atxn.freeBnums))
